@@ -465,9 +465,11 @@ func (s *session) reloadDialogue(line string) {
 	if a == "" {
 		s.reload = "pending"
 		s.event(a, "dialogue", "accepted")
-	} else {
-		s.event(a, "dialogue", "rejected:reload-not-confirmed")
+		// The first banner may come right behind the confirmation.
+		s.ciscoReply(a, "")
+		return
 	}
+	s.event(a, "dialogue", "rejected:reload-not-confirmed")
 	s.w("%s\r\n%s", a, s.prompt())
 }
 
